@@ -659,6 +659,9 @@ def write_evidence(prop, tier, seed, parts, wall, violations, known_matched, bui
     cov["runs_per_hour"] = int(evaluations / wall * 3600) if wall > 0 else 0
     cov["real_components"] = REAL
     engines = {e for (e, _) in parts}
+    if "parsim" in engines and tier == "thorough":
+        conf = chan_conformance(12000)
+        cov["channel_model_conformance"] = {"against": "crossbeam-channel (real)", "sequences": conf["sequences"], "operations": conf["operations"], "differences": 0}
     if "miri" in engines:
         cov["miri_cross_check"] = "shipped guard-off build under Miri (real std threads, real crossbeam-channel): no stub"
     cov["stub_components"] = (STUBS_E1 if "parsim" in engines else []) + (STUBS_E2 if any(e.startswith("seamsim") for e in engines) else [])
@@ -802,9 +805,20 @@ def cmd_replay(path):
     raise HarnessError("replay failed: %s" % (res,))
 
 
+def chan_conformance(count):
+    """The channel model that stands in for crossbeam-channel under the simulator is compared operation by
+    operation with the real crossbeam-channel on seeded sequential sequences; a difference is a harness error."""
+    p = subprocess.run([PARSIM, "chanconf", "--seed", "1", "--count", str(count)], stdout=subprocess.PIPE, stderr=subprocess.PIPE, text=True, env=ENV)
+    res, _ = parse_result_line(p.stdout)
+    if p.returncode != 0 or not (res or {}).get("conforms"):
+        raise HarnessError("channel model conformance failed: %s" % ((res or {}).get("harness_error") or p.stderr[-500:]))
+    return res
+
+
 def cmd_setup():
     took = build({"parsim", "seamsim"} if os.path.isdir(os.path.join(HERE, "seamsim")) else {"parsim"})
-    log("setup ok: %s" % took)
+    conf = chan_conformance(4000)
+    log("setup ok: %s; channel model conforms to crossbeam-channel on %d sequences / %d operations" % (took, conf["sequences"], conf["operations"]))
     return 0
 
 
